@@ -110,7 +110,7 @@ pub fn c08_contract(elm: E, fajr_int: f64, isha_int: f64) {
     let mut params = any_params(elm);
     params.intervals.insert(Prayer::Fajr, fajr_int);
     params.intervals.insert(Prayer::Isha, isha_int);
-    let tad = any_tad(fixed_jd(), any_coords());
+    let tad = any_tad(crate::verif_kani::any_date_jd(), any_coords());
     let w = Weather::default();
     crate::vcover!();
     let out = adj_for_ext_lat(&params, hin, &tad, w);
